@@ -15,6 +15,7 @@ Oracle (no model): exit status non-zero when the signal arrived before the build
 import concurrent.futures as cf
 import json, os, signal, subprocess, time
 from checks import _walker as W
+from checks import _cliworld
 
 PROPERTY = "C18"
 LEVEL = "proof"
@@ -39,6 +40,8 @@ OBLIGATIONS = [
     "Grog.C18.return_cancels_all",
     "Grog.C18.exit_nonzero",
     "Grog.C18.interrupted_walk_finishes",
+    "Grog.C18.exit_nonzero_all_phases",
+    "Grog.C18.run_binary_not_started_after_cancel",
     "Grog.Compose.next_build_ok",
 ]
 ASSUMPTIONS = [
@@ -195,6 +198,358 @@ def survivor_case(ctx, idx, variant, sig):
     import shutil
     shutil.rmtree(d, ignore_errors=True)
     return res
+
+
+# ---------------------------------------------------------------------------------------------------------------
+# interrupts in every phase and for every command (build / test / run)
+# ---------------------------------------------------------------------------------------------------------------
+
+def _mk_ws(ctx, wname, pkg_json, toml="num_workers = 2\n", extra_files=None):
+    d = ctx.scratch(wname)
+    ws_dir, root = os.path.join(d, "ws"), os.path.join(d, "root")
+    os.makedirs(os.path.join(ws_dir, "pkg"))
+    os.makedirs(root)
+    open(os.path.join(ws_dir, "grog.toml"), "w").write(toml)
+    if pkg_json is not None:
+        json.dump(pkg_json, open(os.path.join(ws_dir, "pkg", "BUILD.json"), "w"))
+    for rel, content in (extra_files or {}).items():
+        pth = os.path.join(ws_dir, rel)
+        os.makedirs(os.path.dirname(pth), exist_ok=True)
+        open(pth, "w").write(content)
+    env = dict(os.environ, GROG_ROOT=root, HOME=d, GROG_DISABLE_TEA="true")
+    env.pop("CI", None)
+    return d, ws_dir, root, env
+
+
+def _start(ctx, ws_dir, env, args, outfile):
+    fh = open(outfile, "w")
+    return subprocess.Popen([ctx.grog_binary(), *args], cwd=ws_dir, env=env, stdout=fh, stderr=subprocess.STDOUT, start_new_session=True), fh
+
+
+def _wait_for(pred, timeout, proc=None):
+    t0 = time.time()
+    while time.time() - t0 < timeout:
+        if pred():
+            return True
+        if proc is not None and proc.poll() is not None:
+            return pred()
+        time.sleep(0.02)
+    return False
+
+
+def _finish(p, fh, outfile, bound=30):
+    """-> (rc, seconds until exit or None if it had to be killed, output)"""
+    t0 = time.time()
+    try:
+        p.wait(timeout=bound)
+        lat = time.time() - t0
+    except subprocess.TimeoutExpired:
+        p.kill()
+        p.wait()
+        lat = None
+    fh.close()
+    return p.returncode, lat, open(outfile, errors="replace").read()
+
+
+def _cache_entries(root):
+    n = 0
+    for r, dirs, files in os.walk(root):
+        if os.path.basename(r) == "target" and os.path.basename(os.path.dirname(r)) == "cache":
+            n += len(files) + sum(len(f) for dd in dirs for _, _, f in os.walk(os.path.join(r, dd)))
+            dirs[:] = []
+    return n
+
+
+def _verdict(bad, what, rc, lat, sig, must_be_nonzero=True):
+    if lat is None:
+        bad.append(("no-exit-after-signal", f"{what}: grog did not exit within 30 s after {sig.name}"))
+    elif lat > 5.0:
+        bad.append(("interrupt-slow-exit", f"{what}: grog exited {lat:.1f} s after {sig.name} (bound 5 s)"))
+    if must_be_nonzero and rc == 0:
+        bad.append(("interrupt-exit-zero", f"{what}: grog was interrupted by {sig.name} before it had finished but exited 0"))
+    if rc not in (0, 1) and not (rc is not None and rc < 0 and lat is not None):
+        bad.append(("interrupt-crash", f"{what}: exit status {rc} after {sig.name}"))
+
+
+def lockwait_case(ctx, idx, cmd, sig):
+    """a SECOND grog (build / test / run) waits for the workspace lock behind a running build and is interrupted there"""
+    d0 = ctx.scratch(f"c18-lw-{idx}")
+    pids, trace = os.path.join(d0, "pids"), os.path.join(d0, "trace")
+    pkg = {"targets": [
+        {"name": "slow", "command": f'echo "p $$" >> {pids}; echo "s slow" >> {trace}; sleep 30; echo x > slow.out', "outputs": ["slow.out"]},
+        {"name": "quick", "command": f'echo "s quick" >> {trace}; echo q > quick.out', "outputs": ["quick.out"]},
+        {"name": "quick_test", "dependencies": [":quick"], "command": f'echo "s quick_test" >> {trace}; test -f quick.out'},
+        {"name": "tool", "command": f'echo "s tool" >> {trace}; printf \'#!/bin/sh\\necho "r tool" >> {trace}\\n\' > tool.sh; chmod +x tool.sh', "bin_output": "tool.sh"}]}
+    d, ws_dir, root, env = _mk_ws(ctx, f"c18-lw-{idx}/w", pkg)
+    res = {"family": "phase:lock-wait", "command": cmd, "signal": sig.name, "workers": 2, "delay": 0, "finished_before": False, "interrupted": True, "bad": []}
+    bad = res["bad"]
+    a, afh = _start(ctx, ws_dir, env, ["build", "//pkg:slow"], os.path.join(d0, "a.out"))
+    b = None
+    try:
+        if not _wait_for(lambda: os.path.exists(pids), 20, a):
+            bad.append(("harness-first-build-did-not-start", open(os.path.join(d0, "a.out"), errors="replace").read()[-300:]))
+            return res
+        args = {"build": ["build", "//pkg:quick"], "test": ["test", "//pkg:quick_test"], "run": ["run", "//pkg:tool"]}[cmd]
+        bout = os.path.join(d0, "b.out")
+        b, bfh = _start(ctx, ws_dir, env, args, bout)
+        waiting = _wait_for(lambda: "Waiting" in open(bout, errors="replace").read(), 20, b)
+        res["saw_waiting_message"] = waiting
+        if not waiting:
+            bad.append(("harness-second-grog-did-not-wait", open(bout, errors="replace").read()[-300:]))
+        time.sleep(0.3)
+        os.kill(b.pid, sig)
+        rc, lat, out = _finish(b, bfh, bout)
+        res.update(rc=rc, latency=round(lat, 2) if lat is not None else None)
+        _verdict(bad, f"grog {cmd} interrupted while waiting for the workspace lock", rc, lat, sig)
+        started = [l.split()[1] for l in open(trace).read().splitlines() if l.startswith(("s ", "r "))]
+        if [x for x in started if x != "slow"]:
+            bad.append(("command-started-after-signal", f"the interrupted grog {cmd} started {started} although it never held the lock"))
+        if bad:
+            res["out"] = out[-800:]
+        os.kill(a.pid, signal.SIGINT)
+        rca, lata, outa = _finish(a, afh, os.path.join(d0, "a.out"))
+        if rca == 0 or lata is None or lata > 5:
+            bad.append(("interrupt-exit-zero" if rca == 0 else "interrupt-slow-exit", f"the build holding the lock: exit {rca} after SIGINT, {lata} s"))
+        if _cache_entries(root):
+            bad.append(("interrupted-target-cached", f"{_cache_entries(root)} target results cached although nothing finished"))
+    finally:
+        for pr in (a, b):
+            if pr is not None:
+                kill_session(pr.pid)
+        import shutil
+        shutil.rmtree(d0, ignore_errors=True)
+    return res
+
+
+def run_phase_case(ctx, idx, sig, phase):
+    """`grog run //pkg:server`: phase 'run' = the signal arrives while the built binary runs; phase 'build' = while a
+    dependency of the binary is still being built (the binary must never be started)"""
+    d0 = ctx.scratch(f"c18-run-{idx}")
+    pids, marks = os.path.join(d0, "pids"), os.path.join(d0, "marks")
+    lib_sleep = "sleep 3; " if phase == "build" else ""
+    pkg = {"targets": [
+        {"name": "lib", "command": f'echo "l $$" >> {pids}; {lib_sleep}echo lib > lib.out', "outputs": ["lib.out"]},
+        {"name": "server", "dependencies": [":lib"], "command": "", "bin_output": "server.sh"}]}
+    pkg["targets"][1]["command"] = f"printf '#!/bin/sh\\necho \"r $$\" >> {pids}\\necho run-start >> {marks}\\nsleep 8\\necho run-end >> {marks}\\n' > server.sh; chmod +x server.sh"
+    d, ws_dir, root, env = _mk_ws(ctx, f"c18-run-{idx}/w", pkg)
+    res = {"family": f"phase:run-{phase}", "command": "run", "signal": sig.name, "workers": 2, "delay": 0, "finished_before": False, "interrupted": True, "bad": []}
+    bad = res["bad"]
+    outp = os.path.join(d0, "out")
+    p, fh = _start(ctx, ws_dir, env, ["run", "//pkg:server"], outp)
+    try:
+        key = "r " if phase == "run" else "l "
+        ok = _wait_for(lambda: os.path.exists(pids) and any(l.startswith(key) for l in open(pids).read().splitlines()), 20, p)
+        if not ok:
+            bad.append(("harness-run-did-not-reach-phase", open(outp, errors="replace").read()[-400:]))
+        time.sleep(0.3)
+        pid_of = {l.split()[0]: int(l.split()[1]) for l in open(pids).read().splitlines() if len(l.split()) == 2} if os.path.exists(pids) else {}
+        try:
+            os.kill(p.pid, sig)
+        except ProcessLookupError:
+            pass
+        rc, lat, out = _finish(p, fh, outp)
+        res.update(rc=rc, latency=round(lat, 2) if lat is not None else None)
+        _verdict(bad, f"grog run interrupted in its {phase} phase", rc, lat, sig)
+        time.sleep(0.5)
+        left = session_procs(p.pid)
+        binpid = pid_of.get("r")
+        if phase == "run" and binpid and any(pid == binpid for pid, _, _ in left):
+            bad.append(("run-binary-survived-grog", f"{sig.name}: the binary started by `grog run` (pid {binpid}) still runs 0.5 s after grog exited"))
+        shells = [(pid, comm) for pid, comm, _ in left if comm in SHELLS and pid != binpid]
+        if shells:
+            bad.append(("target-shell-survived-grog", f"{sig.name}: {shells} still run 0.5 s after grog run exited"))
+        m = open(marks).read() if os.path.exists(marks) else ""
+        if phase == "build" and "run-start" in m:
+            bad.append(("command-started-after-signal", "the binary of `grog run` was started although the build phase had been interrupted"))
+        if bad:
+            res["out"] = out[-800:]
+    finally:
+        kill_session(p.pid)
+        import shutil
+        shutil.rmtree(d0, ignore_errors=True)
+    return res
+
+
+def test_build_phase_case(ctx, idx, sig):
+    """`grog test`: the signal arrives while a dependency of the test is being built"""
+    d0 = ctx.scratch(f"c18-test-{idx}")
+    pids, trace = os.path.join(d0, "pids"), os.path.join(d0, "trace")
+    pkg = {"targets": [
+        {"name": "lib", "command": f'echo "l $$" >> {pids}; echo "s lib" >> {trace}; sleep 3; echo lib > lib.out; echo "e lib" >> {trace}', "outputs": ["lib.out"]},
+        {"name": "lib_test", "dependencies": [":lib"], "command": f'echo "s lib_test" >> {trace}; test -f lib.out'}]}
+    d, ws_dir, root, env = _mk_ws(ctx, f"c18-test-{idx}/w", pkg)
+    res = {"family": "phase:test-build", "command": "test", "signal": sig.name, "workers": 2, "delay": 0, "finished_before": False, "interrupted": True, "bad": []}
+    bad = res["bad"]
+    outp = os.path.join(d0, "out")
+    p, fh = _start(ctx, ws_dir, env, ["test", "//pkg:lib_test"], outp)
+    try:
+        if not _wait_for(lambda: os.path.exists(pids), 20, p):
+            bad.append(("harness-test-did-not-start", open(outp, errors="replace").read()[-400:]))
+        time.sleep(0.3)
+        try:
+            os.kill(p.pid, sig)
+        except ProcessLookupError:
+            pass
+        rc, lat, out = _finish(p, fh, outp)
+        res.update(rc=rc, latency=round(lat, 2) if lat is not None else None)
+        _verdict(bad, "grog test interrupted while a dependency of the test was being built", rc, lat, sig)
+        time.sleep(0.5)
+        shells = [(pid, comm) for pid, comm, _ in session_procs(p.pid) if comm in SHELLS]
+        if shells:
+            bad.append(("target-shell-survived-grog", f"{sig.name}: {shells} still run 0.5 s after grog test exited"))
+        tr = open(trace).read() if os.path.exists(trace) else ""
+        if "s lib_test" in tr or "e lib" in tr:
+            bad.append(("command-started-after-signal", f"after the interrupt: {tr.split()}"))
+        if _cache_entries(root):
+            bad.append(("interrupted-target-cached", f"{_cache_entries(root)} target results cached although nothing finished"))
+        if bad:
+            res["out"] = out[-800:]
+    finally:
+        kill_session(p.pid)
+        import shutil
+        shutil.rmtree(d0, ignore_errors=True)
+    return res
+
+
+import threading
+_EARLY = {}
+_EARLY_LOCK = threading.Lock()
+
+
+def early_phase_case(ctx, idx, sig, frac):
+    """signal during BUILD-file loading (a slow BUILD.star plus a few thousand generated targets), analysis and selection:
+    the time from process start to the first command is measured once, the signal is sent at `frac` of it"""
+    d0 = ctx.scratch(f"c18-early-{idx}")
+    trace = os.path.join(d0, "trace")
+    star = ("def spin(n):\n    x = 0\n    for i in range(n):\n        x += i % 7\n    return x\n\nspin(6000000)\n"
+            f'target(name = "t0", command = "echo \\"s t0 $(date +%s%N)\\" >> {trace}; sleep 0.4; echo x > t0.out; echo \\"e t0\\" >> {trace}", outputs = ["t0.out"])\n')
+    files = {"pkg/BUILD.star": star}
+    for pk in range(60):
+        ts = [{"name": f"g{k}", "command": f"echo x > g{k}.out", "outputs": [f"g{k}.out"], "dependencies": ([f":g{k-1}"] if k else [])} for k in range(25)]
+        files[f"gen{pk}/BUILD.json"] = json.dumps({"targets": ts})
+    d, ws_dir, root, env = _mk_ws(ctx, f"c18-early-{idx}/w", None, extra_files=files)
+    res = {"family": "phase:early", "command": "build", "signal": sig.name, "workers": 2, "frac": frac, "finished_before": False, "interrupted": True, "bad": []}
+    bad = res["bad"]
+    import shutil
+    try:
+        with _EARLY_LOCK:
+          if "t_first" not in _EARLY:
+              outp = os.path.join(d0, "cal.out")
+              t0 = time.time()
+              p, fh = _start(ctx, ws_dir, env, ["build", "//pkg:t0"], outp)
+              _wait_for(lambda: os.path.exists(trace), 30, p)
+              _EARLY["t_first"] = time.time() - t0
+              _finish(p, fh, outp)
+              kill_session(p.pid)
+              shutil.rmtree(root, ignore_errors=True)
+              os.makedirs(root)
+              for f in ("trace",):
+                  os.path.exists(os.path.join(d0, f)) and os.remove(os.path.join(d0, f))
+              os.path.exists(os.path.join(ws_dir, "pkg", "t0.out")) and os.remove(os.path.join(ws_dir, "pkg", "t0.out"))
+        delay = frac * _EARLY["t_first"]
+        res["delay"], res["t_first"] = round(delay, 3), round(_EARLY["t_first"], 3)
+        outp = os.path.join(d0, "out")
+        p, fh = _start(ctx, ws_dir, env, ["build", "//pkg:t0"], outp)
+        time.sleep(delay)
+        t_sig_ns = time.time_ns()
+        try:
+            os.kill(p.pid, sig)
+        except ProcessLookupError:
+            pass
+        rc, lat, out = _finish(p, fh, outp)
+        res.update(rc=rc, latency=round(lat, 2) if lat is not None else None)
+        time.sleep(0.4)
+        tr = open(trace).read().split("\n") if os.path.exists(trace) else []
+        started = [l for l in tr if l.startswith("s ")]
+        ended = [l for l in tr if l.startswith("e ")]
+        killed_before_handler = rc == -int(sig) and not started
+        res["killed_before_handler"] = killed_before_handler
+        if not killed_before_handler:
+            _verdict(bad, f"grog build interrupted {delay:.2f} s after its start (first command normally starts after {_EARLY['t_first']:.2f} s)", rc, lat, sig,
+                     must_be_nonzero=not ended)
+        late = [l for l in started if int(l.split()[2]) > t_sig_ns + 0.5e9]
+        if late:
+            bad.append(("command-started-after-signal", f"a command started more than 0.5 s after {sig.name} sent {delay:.2f} s into loading/analysis"))
+        if not ended and _cache_entries(root):
+            bad.append(("interrupted-target-cached", "a target result was cached although its command never ended"))
+        if bad:
+            res["out"] = out[-800:]
+    finally:
+        kill_session(p.pid)
+        shutil.rmtree(d0, ignore_errors=True)
+    return res
+
+
+def late_phase_case(ctx, idx, sig, phase):
+    """phase 'write': the signal arrives right after the command of a target with a large output ended (outputs are being
+    written to the cache); phase 'shutdown': after grog printed its summary"""
+    d0 = ctx.scratch(f"c18-late-{idx}")
+    trace = os.path.join(d0, "trace")
+    size = 384 << 20 if phase == "write" else 1 << 10
+    pkg = {"targets": [{"name": "big", "command": f'echo "s big" >> {trace}; head -c {size} /dev/zero > big.bin; echo "e big" >> {trace}', "outputs": ["big.bin"]},
+                       {"name": "after", "dependencies": [":big"], "command": f'echo "s after $(date +%s%N)" >> {trace}; sleep 0.3; echo a > after.out', "outputs": ["after.out"]}]}
+    d, ws_dir, root, env = _mk_ws(ctx, f"c18-late-{idx}/w", pkg)
+    res = {"family": "phase:" + phase, "command": "build", "signal": sig.name, "workers": 2, "delay": 0, "finished_before": False, "interrupted": True, "bad": []}
+    bad = res["bad"]
+    outp = os.path.join(d0, "out")
+    p, fh = _start(ctx, ws_dir, env, ["build", "//..."], outp)
+    import shutil
+    try:
+        if phase == "write":
+            _wait_for(lambda: os.path.exists(trace) and "e big" in open(trace).read(), 30, p)
+            time.sleep(0.05)
+        else:
+            _wait_for(lambda: "Elapsed time" in open(outp, errors="replace").read(), 30, p)
+        t_sig_ns = time.time_ns()
+        finished_before = p.poll() is not None
+        try:
+            os.kill(p.pid, sig)
+        except ProcessLookupError:
+            finished_before = True
+        rc, lat, out = _finish(p, fh, outp)
+        res.update(rc=rc, latency=round(lat, 2) if lat is not None else None, finished_before=finished_before)
+        done = "completed successfully" in out
+        if not finished_before:
+            _verdict(bad, f"grog build interrupted while {'writing a large output to the cache' if phase == 'write' else 'shutting down'}", rc, lat, sig,
+                     must_be_nonzero=not done)
+        time.sleep(0.4)
+        tr = open(trace).read().splitlines() if os.path.exists(trace) else []
+        late = [l for l in tr if l.startswith("s after") and int(l.split()[2]) > t_sig_ns + 0.5e9]
+        if late and phase == "write":
+            bad.append(("command-started-after-signal", f"the dependant's command started more than 0.5 s after {sig.name}"))
+        entries = _cache_entries(root)
+        res["cache_entries"] = entries
+        # follow-up build: lock, consistent cache, outputs
+        try:
+            q = subprocess.run([ctx.grog_binary(), "build", "//..."], cwd=ws_dir, env=env, capture_output=True, text=True, timeout=40)
+            rc2, out2 = q.returncode, q.stdout + q.stderr
+        except subprocess.TimeoutExpired:
+            rc2, out2 = 124, "TIMEOUT"
+        if rc2 == 124 or "Another grog build" in out2:
+            bad.append(("next-build-cannot-acquire-lock", "the build after the interrupt did not finish / had to wait for the lock"))
+        elif rc2 != 0:
+            bad.append(("follow-up-build-failed", f"the build after the interrupt exited {rc2}: {out2[-300:]}"))
+        else:
+            pth = os.path.join(ws_dir, "pkg", "big.bin")
+            if not os.path.exists(pth) or os.path.getsize(pth) != size:
+                bad.append(("follow-up-outputs-wrong", f"big.bin has {os.path.getsize(pth) if os.path.exists(pth) else 'no'} bytes after the follow-up build, expected {size}"))
+        if bad:
+            res["out"] = out[-800:]
+    finally:
+        kill_session(p.pid)
+        shutil.rmtree(d0, ignore_errors=True)
+    return res
+
+
+def confirmed(fn, ctx, idx, *args):
+    """timing-dependent scenarios: an oracle failure counts only if it shows up again when the scenario is repeated"""
+    r = fn(ctx, idx, *args)
+    if r["bad"]:
+        r2 = fn(ctx, idx + 7000, *args)
+        sig2 = {s for s, _ in r2["bad"]}
+        r["unconfirmed"] = [s for s, _ in r["bad"] if s not in sig2]
+        r["bad"] = [(s, m) for s, m in r["bad"] if s in sig2]
+    return r
 
 
 def signal_case(ctx, idx, seed):
@@ -359,11 +714,27 @@ def run(ctx):
     # ---- (b) CLI signal runs -----------------------------------------------------------------------------
     results = []
     if ctx.grog_binary() is not None:
-        nsig = 16 if quick else 150
+        nsig = 10 if quick else 150
         seeds = [rng.randrange(1 << 30) for _ in range(nsig)]
         with cf.ThreadPoolExecutor(max_workers=4) as ex:
             futs = [ex.submit(survivor_case, ctx, i, v, sg) for i, (v, sg) in enumerate(
                 [(v, sg) for v in ("plain", "trap", "ignore") for sg in (signal.SIGINT, signal.SIGTERM)] * (1 if quick else 4))]
+            S = (signal.SIGINT, signal.SIGTERM)
+            k = 100
+            for j, cmd in enumerate(("build", "test", "run") * (1 if quick else 3)):
+                futs.append(ex.submit(confirmed, lockwait_case, ctx, k + j, cmd, S[(j + ctx.seed) % 2]))
+            k += 20
+            for j, ph in enumerate(("run", "run", "build") * (1 if quick else 3)):
+                futs.append(ex.submit(confirmed, run_phase_case, ctx, k + j, S[j % 2], ph))
+            k += 20
+            for j in range(1 if quick else 4):
+                futs.append(ex.submit(confirmed, test_build_phase_case, ctx, k + j, S[(j + ctx.seed) % 2]))
+            k += 20
+            for j, fr in enumerate((0.25, 0.6, 0.9, 1.05) if quick else (0.1, 0.25, 0.4, 0.6, 0.75, 0.9, 0.97, 1.05, 1.2)):
+                futs.append(ex.submit(confirmed, early_phase_case, ctx, k + j, S[(j + ctx.seed) % 2], fr))
+            k += 20
+            for j, ph in enumerate(("write", "shutdown") * (1 if quick else 3)):
+                futs.append(ex.submit(confirmed, late_phase_case, ctx, k + j, S[(j + ctx.seed) % 2], ph))
             futs += [ex.submit(signal_case, ctx, i, s) for i, s in enumerate(seeds)]
             for f in futs:
                 results.append(f.result())
@@ -372,11 +743,14 @@ def run(ctx):
                 oracle_fail += 1
                 ctx.violation(msg, {"kind": "oracle", "oracle": "CLI signal run", "run": r}, signature=sig)
     ctx.coverage["cli_signal_runs"] = len(results)
+    ctx.coverage["cli_phase_runs"] = {f: sum(1 for r in results if r["family"] == f) for f in sorted({r["family"] for r in results if r["family"].startswith("phase:")})}
+    ctx.coverage["cli_commands"] = {c: sum(1 for r in results if r.get("command", "build") == c) for c in ("build", "test", "run")}
+    ctx.coverage["cli_unconfirmed_oracle_failures"] = [(r["family"], r["unconfirmed"]) for r in results if r.get("unconfirmed")]
     ctx.coverage["cli_survivor_runs"] = {v: sum(1 for r in results if r.get("variant") == v) for v in ("plain", "trap", "ignore")}
     ctx.coverage["cli_orphaned_grandchildren_seen"] = sorted({c for r in results for c in r.get("orphaned_grandchildren", [])})
     ctx.coverage["cli_interrupted"] = sum(1 for r in results if r.get("interrupted"))
     ctx.coverage["cli_signals"] = {s: sum(1 for r in results if r["signal"] == s) for s in ("SIGINT", "SIGTERM")}
-    ctx.coverage["cli_latency_max_s"] = max([r["latency"] for r in results if not r["finished_before"]] or [0])
+    ctx.coverage["cli_latency_max_s"] = max([(r.get("latency") or 0) for r in results if not r["finished_before"]] or [0])
     ctx.coverage["cli_delay_zones"] = {"startup<0.12": sum(1 for r in results if r["delay"] < 0.12), "execution": sum(1 for r in results if 0.12 <= r["delay"] < 1.2),
                                        "late": sum(1 for r in results if r["delay"] >= 1.2)}
     ctx.coverage["evaluations"] = len(cases) + len(results)
@@ -386,6 +760,10 @@ def run(ctx):
                             f"1 s) + {len(results)} CLI builds of slow targets (0.2-0.8 s sleeps, chain/fan/diamond, 1/2/4 workers, optional directory output) hit by SIGINT or "
                             "SIGTERM after 0..2.6 s, each followed by a second build; plus survivor runs (target shell records $$, long foreground child; scripts that do not handle / trap / "
                             "ignore TERM+INT): shell gone after grog's exit, nothing written afterwards, next build gets the lock; non-trivial = cancelled before Walk returned / interrupted before the build finished")
+    # ---- (c) random CLI worlds of the shared generator, each with an interrupt on a build that is followed by another one ----
+    if ctx.grog_binary() is not None:
+        wres, wcov = _cliworld.run_worlds(ctx, 10 if quick else 150, None, interrupt_all=True)
+        _cliworld.report(ctx, wres, wcov, "C18")
     ctx.coverage["oracle_failures"] = oracle_fail
     ctx.coverage["disagreements"] = len(disagreements)
     for r in results[:3]:
@@ -398,6 +776,8 @@ def run(ctx):
 
 
 def replay(ctx, rep):
+    if "world" in rep:
+        return _cliworld.replay(ctx, rep)
     if "case" in rep:
         c = rep["case"]
         outs = W.run_impl(ctx, [c])
